@@ -2,6 +2,8 @@
 
 import re
 
+from hypothesis import strategies as st
+
 from vlib import build as B
 from vlib import gen as G
 from vlib import refmodel as R
@@ -21,7 +23,9 @@ RULE = (
     "Voltage = owner's Vout; Current/Power/Loss = sums of members' Iin/Power/Loss (1e-9); "
     "warning tokens = union of the members' tokens. No rails => rail_rep() == solve() cell "
     "for cell. Non-trivial: >= 2 rails with >= 2 members each, or a mux member, or a rail "
-    "all of whose members carry the same non-empty warning; distinct by spec hash."
+    "all of whose members carry the same non-empty warning; distinct by spec hash. "
+    "Half of the cases pass solve() arguments (ta, phase, energy, tags, vtol, itol) to both "
+    "solve() and rail_rep(): the report must be the summary of that very table."
 )
 ASSUMPTIONS = [
     "I7: with rails defined but feeding nothing, None or an empty frame are both accepted",
@@ -34,14 +38,26 @@ def tokens(cell):
     return set(t for t in re.split(r"[,\s]+", cell or "") if t)
 
 
-def body(spec, stats):
+def body(case, stats):
+    if "spec" in case and "kw" in case:
+        spec, kw = case["spec"], dict(case["kw"])
+    else:  # replay files written before the keyword arguments were generated
+        spec, kw = case, {}
+    if kw.get("phase") is not None and spec["phases"]:
+        names = list(spec["phases"])
+        kw["phase"] = names[kw["phase"] % len(names)]
+    else:
+        kw.pop("phase", None)
+    kw = {k: v for k, v in kw.items() if v is not None}
+    if kw:
+        stats.cls("with_solve_arguments:" + "+".join(sorted(kw)))
     classify(spec, stats)
     for k, v in spec.get("_gen", {}).get("excluded", {}).items():
         stats.excluded[k] += v
     sys = B.build(spec)
-    df = solve_or_skip(sys, stats)
+    df = solve_or_skip(sys, stats, **kw)
     try:
-        rr = sys.rail_rep()
+        rr = sys.rail_rep(**kw)
     except (ValueError, RuntimeError):
         stats.cls("not_solved:rail_rep")
         return
@@ -57,7 +73,7 @@ def body(spec, stats):
         stats.nontriv(jhash(["norails", spec["nodes"], spec["phases"]]))
         return
     tab = Table(df)
-    phases = list(spec["phases"]) or [""]
+    phases = ([kw["phase"]] if "phase" in kw else list(spec["phases"])) or [""]
     want = {}
     nontriv = False
     for ph in phases:
@@ -135,16 +151,43 @@ def body(spec, stats):
         stats.nontriv(jhash([spec["nodes"], spec["phases"]]), sample=S.summarize(spec))
 
 
+def _case(o):
+    # rail_rep() takes the arguments of solve() and must report that very table
+    kw = st.one_of(
+        st.just({}),
+        st.fixed_dictionaries({}, optional={
+            "ta": st.one_of(st.sampled_from([-40.0, 0.0, 85.0, 125.0]),
+                            st.floats(-55.0, 150.0, allow_nan=False)),
+            "phase": st.integers(0, 5),
+            "energy": st.booleans(),
+            "tags": st.sampled_from([{}, {"Case": "k"}, {"Run": 3, "Corner": "hot"}]),
+            "vtol": st.sampled_from([1e-6, 1e-9, 1e-4]),
+            "itol": st.sampled_from([1e-6, 1e-9, 1e-4]),
+        }))
+    return st.fixed_dictionaries({"spec": G.systems(o), "kw": kw})
+
+
+def _reduce(case):
+    if "kw" not in case:
+        for c in S.reductions(case):
+            yield c
+        return
+    for c in S.reductions(case["spec"]):
+        yield {"spec": c, "kw": case["kw"]}
+    for k in list(case["kw"]):
+        yield {"spec": case["spec"], "kw": {a: b for a, b in case["kw"].items() if a != k}}
+
+
 def streams(tier, avoid):
     big = tier == "thorough"
     mn = 14 if big else 10
     o1 = G.Opts(max_nodes=mn, min_nodes=4, rails=True, rail_refs=True, limits=True,
                 avoid=avoid, thermal=True)
     o2 = G.Opts(max_nodes=mn, min_nodes=4, rails=True, rail_refs=True, limits=True,
-                phases=True, avoid=avoid, zero_source=True)
+                phases=True, avoid=avoid, zero_source=True, thermal=True)
     return [
-        Stream("static", body, strategy=G.systems(o1), n={"quick": 600, "thorough": 4000},
-               reduce=S.reductions),
-        Stream("phases", body, strategy=G.systems(o2), n={"quick": 400, "thorough": 3000},
-               reduce=S.reductions),
+        Stream("static", body, strategy=_case(o1), n={"quick": 600, "thorough": 4000},
+               reduce=_reduce),
+        Stream("phases", body, strategy=_case(o2), n={"quick": 400, "thorough": 3000},
+               reduce=_reduce),
     ]
